@@ -1,8 +1,55 @@
 import Genshi.Wire
+import Genshi.WireCore
+import Genshi.Model.Reader
 namespace Driver.C08
-open Genshi
+open Genshi Genshi.Reader Genshi.Sexp
 
-/-- stub: the model driver for C08 is not built yet -/
-def handle : List Sexp → Option Sexp := fun _ => none
+def strLt : List Char → List Char → Bool
+  | [], [] => false
+  | [], _ :: _ => true
+  | _ :: _, [] => false
+  | a :: as, b :: bs => if a.toNat < b.toNat then true else if a.toNat > b.toNat then false else strLt as bs
+
+def insertBy {α : Type} (key : α → List Char) (x : α) : List α → List α
+  | [] => [x]
+  | y :: ys => if strLt (key x) (key y) then x :: y :: ys else y :: insertBy key x ys
+
+def sortBy {α : Type} (key : α → List Char) (xs : List α) : List α :=
+  xs.foldl (fun acc x => insertBy key x acc) []
+
+def hattrs (a : List (Str × Option Str)) : Sexp :=
+  .list ((sortBy (·.1) a).map fun p => .list [.str p.1, optStr p.2])
+
+def htok : HTok → List Sexp
+  | .start n a => [.list [.atom "S", .str n, hattrs a]]
+  | .selfClosed n => [.list [.atom "SELF", .str n]]
+  | .end_ n => [.list [.atom "E", .str n]]
+  | .text s => [.list [.atom "T", .str s]]
+  | .comment s => [.list [.atom "C", .str s]]
+  | .pi s => [.list [.atom "PI", .str s]]
+  | .doctype n p s => [.list [.atom "DT", .str n, optStr p, optStr s]]
+  | .badDecl s => [.list [.atom "OTHER", .str s]]
+
+def xtok : XTok → Sexp
+  | .start n a =>
+      .list [.atom "S", .str n.text,
+             .list ((sortBy (·.1) (a.map fun p => (p.1.text, p.2))).map fun p => .list [.str p.1, .str p.2])]
+  | .end_ n => .list [.atom "E", .str n.text]
+  | .text s => .list [.atom "T", .str s]
+  | .comment s => .list [.atom "C", .str s]
+  | .pi t d => .list [.atom "PI", .str t, .str d]
+  | .doctype n p s => .list [.atom "DT", .str n, optStr p, optStr s]
+  | .xmlDecl v e s => .list [.atom "XD", .str v, optStr e, .str (toString s).toList]
+
+def handle : List Sexp → Option Sexp
+  | [.atom "read", .atom "html", .str s] =>
+      match readHtml s with
+      | some ts => some (.list (ts.flatMap htok))
+      | none => some (.atom "error")
+  | [.atom "read", .atom "xhtml", .str s] =>
+      match readXml s with
+      | some ts => some (.list (ts.map xtok))
+      | none => some (.atom "error")
+  | _ => none
 
 end Driver.C08
